@@ -1028,12 +1028,34 @@ def case_patch_job(rep):
                 onb[own_face(X, a, 0.0)] = True
                 onb[own_face(X, a, L[a])] = True
             onb &= geo
+            vector_values = rep % 3 == 1
+            if vector_values:
+                # the displacement depends on X_0 only (H = h (x) e_0): the two faces X_0 = const translate rigidly, and their prescribed
+                # values are given the way a user writes a rigid translation - ONE vector per boundary, a (substeps, dim) table as ramp
+                # (round 11: a tile / repeat mix-up in the expansion of such a value put the components on the wrong unknowns)
+                hvec = (A - np.eye(d))[:, 0].copy()
+                A = np.eye(d)
+                A[:, 0] += hvec
             uex = X @ (A - np.eye(d)).T
-            ball = fem.Boundary(field[0], mask=onb.reshape(-1, 1), value=0 * uex[onb])
             t = np.array([0.3, 0.7, 1.0]) if rep % 2 == 0 else np.array([0.5, 1.0])
+            if vector_values:
+                m0, mL = np.zeros(len(X), bool), np.zeros(len(X), bool)
+                m0[own_face(X, 0, 0.0)] = True
+                mL[own_face(X, 0, L[0])] = True
+                m0, mL = m0 & geo, mL & geo
+                rest = onb & ~m0 & ~mL
+                b0 = fem.Boundary(field[0], mask=m0.reshape(-1, 1), value=np.zeros(d))
+                bL = fem.Boundary(field[0], mask=mL.reshape(-1, 1), value=np.zeros(d))
+                brest = fem.Boundary(field[0], mask=rest.reshape(-1, 1), value=0 * uex[rest])
+                ramp = {bL: t[:, None] * (hvec * L[0])[None], brest: t[:, None, None] * uex[rest][None]}
+                bnds = {"x0": b0, "xL": bL, "rest": brest}
+                run.units["patch-job:vector-valued-boundaries"] += 1
+            else:
+                ball = fem.Boundary(field[0], mask=onb.reshape(-1, 1), value=0 * uex[onb])
+                ramp, bnds = {ball: t[:, None, None] * uex[onb][None]}, {"all": ball}
             a = rep % d  # the tracked face X_a = L_a
             face = fem.Boundary(field[0], **{"f" + "xyz"[a]: L[a]})
-            job = fem.CharacteristicCurve([fem.Step([body], ramp={ball: t[:, None, None] * uex[onb][None]}, boundaries={"all": ball})], face)
+            job = fem.CharacteristicCurve([fem.Step([body], ramp=ramp, boundaries=bnds)], face)
             label = "patch-job/%s/%s/%s length %g modulus %.1e" % (fam, kind, name, s, ms)
             try:
                 job.evaluate(verbose=False, tol=1e-10)
@@ -1061,7 +1083,7 @@ def case_patch_job(rep):
             if gen.FAMILIES[fam].get("mini"):
                 run.compare("homogeneous.patch", "family=%s formulation=%s clause=bubble-amplitude-zero" % (fam, kind), maxabs(u[~geo]) / maxabs(uex), 1e-8,
                             "%s: bubble unknowns are not zero for a homogeneous solution" % label, unit="patch-job:bubble")
-            run.compare("homogeneous.patch", "family=%s formulation=%s clause=recorded-displacement" % (fam, kind), maxabs(x - xref) / maxabs(xref), 1e-12,
+            run.compare("homogeneous.patch", "family=%s formulation=%s clause=recorded-displacement" % (fam, kind), maxabs(x - xref) / max(maxabs(xref), 1e-3 * maxabs(uex), 1e-300), 1e-12,
                         "%s: job.x is not the prescribed displacement of the first point of the tracked face at every substep" % label, unit="patch-job:x")
             run.compare("homogeneous.patch", "family=%s formulation=%s clause=reaction-force-vector" % (fam, kind), maxabs(y - yref) / maxabs(yref), 1e-7 + REG.get(name, 0.0),
                         "%s: the reaction vector on a face of the sheared homogeneous state is not P(F) N A0" % label, unit="patch-job:reaction-vector",
@@ -1321,7 +1343,7 @@ SPEC = {
     + ["curve:items:two-items", "curve:items:lateral-face", "curve:items:pseudo-elastic-cycles"]
     + ["curve:forms:condensed:mini", "curve:forms:mixed", "curve:forms:mixed:planestrain", "curve:forms:mixed:3d", "curve:forms:solid:one-cell", "curve:forms:mixed:one-cell",
        "curve:forms:condensed:one-cell", "curve:forms:nearly-incompressible", "curve:forms:dual-fields"]
-    + ["patch-job:solid", "patch-job:condensed", "patch-job:mixed", "patch-job:reaction-vector"]
+    + ["patch-job:solid", "patch-job:condensed", "patch-job:mixed", "patch-job:reaction-vector", "patch-job:vector-valued-boundaries"]
     # fourth audit (mirrored oracles): the stretch axis of every view against the caller's lists, the dual points from the caller's mesh
     + ["view:stretch-axis:" + v + i for v in VIEW_LISTS for i in ("", " (Incompressible)")] + ["view:list-left-out:" + k for k in ("ux", "ps", "bx")]
     + ["view:stretches=:" + v + i for v in VIEW_LISTS for i in ("", " (Incompressible)")] + ["curve:forms:dual-points", "curve:forms:dual-fields-at-points", "patch-job:dual-fields", "patch-job:dual-points", "patch-job:dual-fields-at-points"],
